@@ -386,8 +386,13 @@ def run_interpolate(ctx, tools, prefixes, weights, tag, mem=("20M", "1M")):
     d = os.path.join(ctx.scratch, tag)
     args = ["timeout", "60", tools["interpolate"], "-m"] + prefixes + ["-w"] + [fmt_w(w) for w in weights] + \
         ["-S", mem[0], "--sort_block", mem[1], "-T", d + "/tmp_"]
-    rc, out, err = vlib.sh(args, timeout=90, binary=True)
-    return rc, out, err.decode("utf-8", "replace")
+    import time
+    for attempt in range(6):
+        rc, out, err = vlib.sh(args, timeout=90, binary=True)
+        if rc not in (126, 127):
+            return rc, out, err.decode("utf-8", "replace")
+        time.sleep(2 + attempt)         # the binary is being relinked in the shared build cache: not an answer of the tool
+    raise vlib.InfraError("bin/interpolate cannot be executed (status %d)" % rc)
 
 
 def check_case(ctx, tools, case, tag="i"):
